@@ -1,3 +1,4 @@
+import Rp2.Proofs.JpRows
 import Rp2.Proofs.JpChain
 /-! # C20 — Japanese tax report: one sheet per asset-year, chained in year order -/
 namespace Rp2.C20
@@ -13,4 +14,9 @@ theorem sheets_and_chain (c : Computed) (shs : List JSheet) (h : jpAsset true c 
 theorem years_sorted_once (l : List Int) :
     (sortBy (fun a b => decide (a < b)) (dedup l)).Pairwise (· < ·) ∧
     ∀ y, y ∈ sortBy (fun a b => decide (a < b)) (dedup l) ↔ y ∈ l := sorted_years_spec l
+/-- rows of one asset-year sheet: every in- and out-transaction and every fee-bearing transfer exactly once, in time order, with
+    its month and day, on consecutive rows; fee-less transfers are not listed -/
+theorem sheet_rows_each_once (name : String) (ts : List JTx) (k : Nat) (rows : List JRow) (h : jpRows name ts k = .ok rows) :
+    rows.map (fun r => (r.month, r.day)) = (ts.filter jListed).map jDate ∧
+    rows.map (·.row) = List.range' (k + 1) rows.length ∧ ∀ r ∈ rows, r.sheet = name := jpRows_spec name ts k rows h
 end Rp2.C20
